@@ -143,6 +143,26 @@ CLAIMED["C09"] = (
     "DESIGN.md 3/C09",
 )
 
+# stages added in later rounds (appended to the technique text)
+_EXTRA = {
+    "C05": "; symbolic derivatives also taken in a long-lived context cleared between programs",
+    "C06": "; the renderer's screen-to-model matrix cross-checked against the documented screen-to-world map; scenes at extreme scales (2^+-8..24)",
+    "C07": "; perspective views with a quotient-rule normal reference; screen-to-model matrix cross-checked against the documentation; scenes at extreme scales",
+    "C08": "; scenes away from the model origin, truncated fields, fields whose interval is NaN over large cells; empty meshes judged against the solid's depth",
+    "C09": "; half of the scenes through non-identity views, geometry beyond the top of the grid, register-pressure scenes, pixel-perfect renders",
+    "C10": "; endurance stage (one workspace / evaluator, gaps of 2^8+-1 and 2^16+-1 filler calls between two opposite simplifications); repeated identical calls",
+    "C11": "; function-level evaluators reused across 1..4-output functions with equal sample counts; every binary operation with special immediates over boxes with zero / extreme bounds",
+    "C13": "; extreme power-of-two scales; imports into a long-lived context cleared between cases",
+    "C14": "; long-lived shape evaluators of all four kinds across dropped shapes; samples on the unit-weight locus of perspective rows; per-sample derivative seeds",
+    "C15": "; simplification into storage recycled from a serialized tape",
+    "C16": "; extreme scale factors (alone and nested), far nearly-on-axis rotation centres, re-import into a cleared context",
+    "C18": "; drifting zoom histories that reach the ends of the scale band",
+}
+for _k, _v in _EXTRA.items():
+    _t = list(CLAIMED[_k])
+    _t[0] = _t[0] + _v
+    CLAIMED[_k] = tuple(_t)
+
 NOT_YET = {}
 
 def main():
